@@ -523,6 +523,13 @@ class Executor:
     def canon_value(self, canon):
         if canon in ("numpy", "math", "numba", "dask.array", "xarray", "cupy"):
             return VModule(canon)
+        if canon in ("math.pi", "numpy.pi"):
+            self.used_axioms.add("pi")
+            return VFloat(xr.fin(xr.PI))
+        if canon in ("math.inf", "numpy.inf"):
+            return VFloat(xr.PINF)
+        if canon in ("math.nan", "numpy.nan"):
+            return VFloat(xr.NAN)
         if canon.startswith("xrspatial."):
             # from xrspatial.utils import ngjit, ... / other kernels
             return VFunc("xr:" + canon)
